@@ -82,34 +82,38 @@ type dsListener struct {
 	fuzzy    bool // registered or cancelled after Close had been called
 	// cancel is offered once this many notifications were sent after the
 	// registration (so that a slow listener has something queued)
-	cancelAfter int
+	cancelAfter                 int
+	addReleased, cancelReleased bool
 }
 
 type dsWorld struct {
-	w               *World
-	r               *simkit.Run
-	mode            dsMode
-	pubs            []*PubNode
-	sub             *SubNode
-	limit           int
-	anns            []*annRec
-	exps            []*expOp
-	sends           []evSend
-	witness         *dsListener
-	lsts            []*dsListener
-	taskGID         map[int64]string
-	holder          map[string]int64 // publisher name -> gid released past sync.lock last
-	passedSem       map[int64]bool
-	semStep         map[int64]int64
-	asyncFor        map[int64]string // async goroutine -> publisher
-	closeCalled     bool
-	closeRetStep    int64
-	closeReturns    int
-	closers         int
-	closingStarted  bool
-	closeBegun      bool
-	closeDone       bool
-	recvReleased    int
+	w              *World
+	r              *simkit.Run
+	mode           dsMode
+	pubs           []*PubNode
+	sub            *SubNode
+	limit          int
+	anns           []*annRec
+	exps           []*expOp
+	sends          []evSend
+	witness        *dsListener
+	lsts           []*dsListener
+	taskGID        map[int64]string
+	holder         map[string]int64 // publisher name -> gid released past sync.lock last
+	passedSem      map[int64]bool
+	semStep        map[int64]int64
+	asyncFor       map[int64]string // async goroutine -> publisher
+	closeCalled    bool
+	closeRetStep   int64
+	closeReturns   int
+	closers        int
+	closingStarted bool
+	closeBegun     bool
+	closeDone      bool
+	recvReleased   int
+	// distributor bookkeeping (site dist.forward)
+	lastDistPark    *simkit.Parked
+	evInFlight      int // notification sends released, not yet received by the distributor
 	idleTTL         time.Duration
 	slowHook        bool
 	hooksAtClose    int
@@ -218,6 +222,11 @@ func runDsync(r *simkit.Run, c Cfg, mode dsMode) {
 	// swarm: a random subset of yield sites is active in this run
 	sites := map[string]bool{}
 	all := []string{"watch.recv", "watch.swapped", "async.entry", "async.sem", "async.took", "event.send", "event.senderr", "listener.add", "listener.cancel", "close.step", "hook.call"}
+	if mode.listeners && !mode.closing {
+		// the distributor can be held between receiving a notification and
+		// forwarding it (registration and cancellation racing delivery)
+		all = append(all, "dist.forward")
+	}
 	var on []string
 	for _, s := range all {
 		if tp.Chance(2, 3, "site."+s) {
@@ -378,9 +387,47 @@ func runDsync(r *simkit.Run, c Cfg, mode dsMode) {
 	}
 
 	// --- scheduler ---
+	distState := func() (parked bool, ctlPending int) {
+		for _, q := range r.AllParked() {
+			if q.Site == "dist.forward" {
+				parked = true
+				if q != d.lastDistPark {
+					d.lastDistPark = q
+					if d.evInFlight > 0 {
+						d.evInFlight--
+					}
+				}
+			}
+		}
+		for _, l := range d.lsts {
+			if l.addReleased && !l.regDone {
+				ctlPending++
+			}
+			if l.cancelReleased && !l.cancelDn {
+				ctlPending++
+			}
+		}
+		return
+	}
 	custom := func(p *simkit.Parked) *simkit.Action {
 		if a := w.Net.RequestAction(p); a != nil {
 			return a
+		}
+		// While the distributor is held, at most one kind of thing may be
+		// waiting for it: otherwise its select would have two ready cases
+		// and the runtime, not the tape, would pick.
+		if sites["dist.forward"] {
+			parked, ctl := distState()
+			switch p.Site {
+			case "event.send", "event.senderr":
+				if parked && ctl > 0 {
+					return &simkit.Action{Name: "hold " + p.Site, Do: nil}
+				}
+			case "listener.add", "listener.cancel":
+				if parked && (d.evInFlight > 0 || ctl > 0) {
+					return &simkit.Action{Name: "hold " + p.Site, Do: nil}
+				}
+			}
 		}
 		switch p.Site {
 		case "hook.call":
@@ -468,6 +515,7 @@ func runDsync(r *simkit.Run, c Cfg, mode dsMode) {
 			return &simkit.Action{Name: "release " + p.Site + "|" + p.Who, Weight: 2, Do: func() {
 				ev := evSend{peer: p.Who, err: p.Site == "event.senderr", step: r.Step(), gid: p.GID}
 				d.sends = append(d.sends, ev)
+				d.evInFlight++
 				delete(d.passedSem, p.GID)
 				r.Release(p, nil)
 			}}
@@ -482,6 +530,7 @@ func runDsync(r *simkit.Run, c Cfg, mode dsMode) {
 					for _, l := range d.lsts {
 						if r.TaskOf(p.GID) == l.name {
 							l.cancelAt = len(d.sends)
+							l.cancelReleased = true
 							if d.closeCalled {
 								l.fuzzy = true
 							}
@@ -494,6 +543,7 @@ func runDsync(r *simkit.Run, c Cfg, mode dsMode) {
 				for _, l := range d.lsts {
 					if r.TaskOf(p.GID) == l.name {
 						l.regAt = len(d.sends)
+						l.addReleased = true
 						l.regStep = r.Step()
 						if d.closeCalled {
 							l.fuzzy = true
